@@ -533,6 +533,10 @@ func genSet(r *hx.Rng, big int) setDesc {
 	}
 	var iv []ivec
 	d.Verts, d.Idx, _, iv = genElements(r, d.Kind, n)
+	if d.Kind == "line" && r.Chance(1, 40) {
+		// the line strip without indices (PrimitiveCount() = -1): no elements, no tree
+		d.Verts, d.Idx, iv, n = [][3]float64{}, []int{}, nil, 0
+	}
 	switch r.Intn(5) {
 	case 0:
 		d.Depth = -1 // automatic
